@@ -103,6 +103,8 @@ def gen_source(rng):
                 files[str(impl_path_join(it["name"], "deeper"))] = "deep_k 1;\n"
                 transitive = True
             files[it["name"]] = text
+    if _files_overflow(files) and rng.random() > 0.03:
+        return gen_source(rng)          # known-finding class D2 inside an include file: kept out of the compared stream
     exprs = []
     r = rng.random()
     if r < 0.5:
@@ -213,8 +215,14 @@ def _d32(v: dict) -> bool:
     return c12._d32(v)
 
 
+def _files_overflow(files: dict) -> bool:
+    """an include file whose text carries an overflowing number spelling (quoted or bare)"""
+    words = [w for t in files.values() for w in re.findall(r"[^\s'\";]+", t)]
+    return c01.has_overflow_string(words)
+
+
 def _d2(v: dict) -> bool:
-    return _has_overflow(v["input"].get("items", []))
+    return _has_overflow(v["input"].get("items", [])) or _files_overflow(v["input"].get("files", {}))
 
 
 def _w33() -> bool:
